@@ -86,6 +86,7 @@ func ZZVerifC13Overlay() {
 // plain access takes effect inside a locked section.
 func ZZVerifC13Lock() {
 	nd.Schedule(nd.Param("P", 2))
+	nd.Races()
 	var scp app.DataScope
 	if nd.Choose("kind", 2) == 0 {
 		scp = New(make(map[interface{}]interface{}))
